@@ -648,6 +648,56 @@ def check(prop: str, tier: str, seed: int) -> int:
     return run.finish()
 
 
+def fam_payload(tier: str, rnd: random.Random) -> list[dict]:
+    """End to end: a conforming answer must be delivered as it is, whatever bytes it carries - in particular bytes that
+    look like frame headers (AA55, AA557FC0), sentinels and checksums with special values - on every framing."""
+    quick = tier == "quick"
+    out = []
+    regs = [0xAA55, 0x55AA, 0xFFFF, 0x0000, 0x7FC0, 0xC07F, 0x00AA, 0x5500, 0xA55A, 0x0103, 0xF703]
+    pats = ["aa55", "55aa", "00aa5500", "aa557fc0", "aa55c07f", "ffff", "0000", "aa", "0055aa", "f7030455aa"]
+    if not quick:
+        regs += [rnd.randrange(65536) for _ in range(40)]
+        pats += [bytes(rnd.randrange(256) for _ in range(rnd.choice([2, 3, 5, 8]))).hex() for _ in range(40)]
+    for kind, fr in (("udp", "rtu"), ("udp", "aa55"), ("tcp", "tcp")):
+        for ka in (True, False):
+            for n in ((1, 2, 5, 125) if quick else (1, 2, 3, 5, 8, 33, 64, 124, 125)):
+                if fr == "aa55" and n > 120:
+                    continue
+                for reg in regs:
+                    sc = base(kind, ka, 0, fr)
+                    sc.update(family="payload", epochs=[[{"start": 0, "prog": [req(reg, n=n)]}]], rfaults=[[{"k": "ans", "d": 1}]])
+                    out.append(sc)
+                for pi, pat in enumerate(pats):
+                    reg = 200 + pi
+                    sc = base(kind, ka, 0, fr)
+                    f = {"k": "ans", "d": 1}
+                    if fr == "rtu" and pi % 2:
+                        f = {"k": "anstrail", "d": 1, "trail": pats[(pi + n) % len(pats)]}
+                    sc.update(family="payload", epochs=[[{"start": 0, "prog": [req(reg, n=n)]}]], rfaults=[[f]], payloads={str(reg): pat})
+                    out.append(sc)
+            if fr != "aa55":
+                for reg in regs[:6]:
+                    for v in (0xAA55 - 65536, 0x55AA, -1, 0, 0x7FC0):
+                        sc = base(kind, ka, 0, fr)
+                        sc.update(family="payload", epochs=[[{"start": 0, "prog": [req(reg, op="write", v=v)]}]],
+                                  rfaults=[[{"k": "ans", "d": 1}]])
+                        out.append(sc)
+    return out
+
+
+def wire_level(run: Run, prop: str, tier: str, rnd: random.Random) -> None:
+    """The parts of C02 / C03 that only show on the wire of a running protocol object: C02 - a conforming answer is
+    delivered whatever its bytes look like; C03 - what is transmitted (also on retransmissions and after failed
+    connects) is the command's canonical frame, with a Modbus/TCP transaction id that changes with every transmission."""
+    if prop == "C02":
+        scen = fam_payload(tier, rnd)
+    else:
+        scen = fam_script([1], [0], faults_key="hist", conn_variants=True)
+        if tier != "quick":
+            scen += fam_script([2], [0], faults_key="hist", conn_variants=False)
+    execute_and_judge(run, scen, (prop + ".",))
+
+
 def witnesses(prop: str) -> list[dict]:
     d = os.path.join(tlc.VERIF, "witness")
     out = []
